@@ -153,9 +153,31 @@ pub fn classes_of(c: &QCase) -> Vec<&'static str> {
     c.classes.iter().map(|s| intern(s)).collect()
 }
 
+/// Inputs the tool refuses or fails on in different ways; evaluated (result ignored) in front of one case in
+/// eight, on the same thread and database, so that state left behind by a failed or unusual evaluation
+/// (a scratch buffer, a cache, a counter) shows up as a wrong answer to the case that follows.
+pub const PRECEDING_INPUTS: [&str; 12] = ["1e99999999999", "12x", "1 / 0", "(", "1 m + 1 s", "round(1, 2, 3)", "nosuch(1)", "1 kg to m", "0 ^ -1", "1e", "((((1", "50% 50 1.50%"];
+
+fn fnv(s: &str) -> u64 {
+    let mut h: u64 = 0xcbf29ce484222325;
+    for b in s.bytes() {
+        h ^= b as u64;
+        h = h.wrapping_mul(0x100000001b3);
+    }
+    h
+}
+
 /// Judge one case against the tool. `sigp` prefixes failure signatures.
 pub fn judge(db: &Db, c: &QCase) -> CaseReport {
-    let classes = classes_of(c);
+    let mut classes = classes_of(c);
+    let h = fnv(&c.query);
+    if h % 8 == 0 {
+        let pre = PRECEDING_INPUTS[((h >> 8) % PRECEDING_INPUTS.len() as u64) as usize];
+        let _ = run(db, pre);
+        let _ = crate::runner::guarded(pre, || pre.parse::<anything::Rational>().is_ok());
+        let _ = crate::runner::guarded(pre, || pre.parse::<anything::Compound>().is_ok());
+        classes.push("after-a-failing-evaluation");
+    }
     let rs = match run(db, &c.query) {
         Ok(r) => r,
         Err(p) => {
